@@ -28,6 +28,9 @@ type Check struct {
 	// Bubble: run Body as task "main" inside a synctest bubble under the
 	// scheduler (fake clock, scheduled goroutines).
 	Bubble bool
+	// FreeRun (with Bubble): no cooperative scheduler, only the bubble's fake
+	// clock; for checks whose only client is the body itself.
+	FreeRun bool
 	// Body executes one simulated run. All choices come from r.
 	Body func(r *Run)
 	// Liveness: a stuck run is a violation of this property (otherwise it is
@@ -170,6 +173,7 @@ func (r *Run) Seq() int64 {
 // Logf appends a line to the run's event trace. It never draws from the tape
 // nor reads a real clock.
 func (r *Run) Logf(format string, args ...interface{}) {
+	progress.Add(1) // a run without the scheduler still shows the watchdog that it is alive
 	r.mu.Lock()
 	defer r.mu.Unlock()
 	if len(r.log) >= 4000 {
@@ -496,7 +500,40 @@ func Exec(t *testing.T, c *Check, seed uint64, tier string, sc *Scenario) *Resul
 		res.Findings = r.findings
 		res.FindingsN = r.findingsN
 	}
-	if c.Bubble {
+	if c.Bubble && c.FreeRun {
+		// fake clock and quiescence only: the body is the single client, goroutines
+		// of the system run freely between its (sequential) requests
+		func() {
+			defer func() {
+				// goroutines left blocked at the end of the bubble, or a deadlock inside it
+				if x := recover(); x != nil {
+					r.mu.Lock()
+					if r.viol == nil && r.trouble == "" {
+						buf := make([]byte, 1<<20)
+						buf = buf[:runtime.Stack(buf, true)]
+						var left []string
+						for _, g := range strings.Split(string(buf), "\n\n") {
+							if strings.Contains(g, "synctest bubble") {
+								left = append(left, g)
+							}
+						}
+						r.trouble = fmt.Sprintf("bubble ended abnormally: %v\n%s", x, strings.Join(left, "\n\n"))
+					}
+					r.mu.Unlock()
+				}
+			}()
+			synctest.Test(t, func(t *testing.T) {
+				simhook.Install(hooks)
+				r.simStart = time.Now()
+				func() {
+					defer finish()
+					body()
+				}()
+				r.simDur = time.Since(r.simStart)
+			})
+		}()
+		simhook.Install(nil)
+	} else if c.Bubble {
 		synctest.Test(t, func(t *testing.T) {
 			s := newSched(r)
 			r.Sched = s
@@ -1019,4 +1056,11 @@ func tapeWeight(t map[string][]uint32) int {
 		n += len(v) * 1000
 	}
 	return n
+}
+
+func (r *Run) simNow() time.Duration {
+	if r.simStart.IsZero() {
+		return 0
+	}
+	return time.Since(r.simStart)
 }
